@@ -26,6 +26,8 @@ type Run struct {
 	ListOnly  bool
 	KnownFile string
 	ReplayDir string
+	Explain   bool
+	Only      string
 	T0        time.Time
 	LoadSecs  float64
 }
@@ -145,19 +147,41 @@ func (r *Run) Do(keys []string) int {
 			fmt.Fprintf(os.Stderr, "govc: no contract for %s\n", k)
 			return 2
 		}
-		x := newExec(r.W, fi, r.Active)
-		x.splitRet = r.Split
-		err := x.verifyFunc()
 		rep := &funcReport{Key: k}
-		if err != nil {
-			rep.Err = err.Error()
-			engineErr = true
-			fmt.Fprintln(os.Stderr, "govc:", err)
-		}
-		for _, o := range x.Obls {
-			if r.keep(o) {
-				all = append(all, o)
-				rep.Obls++
+		var x *Exec
+		ncases := 1
+		for mask := 0; mask < ncases; mask++ {
+			x = newExec(r.W, fi, r.Active)
+			x.splitRet = r.Split
+			x.caseMask = mask
+			clearFacts()
+			err := x.verifyFunc()
+			clearFacts()
+			if err != nil {
+				rep.Err = err.Error()
+				engineErr = true
+				fmt.Fprintln(os.Stderr, "govc:", err)
+				break
+			}
+			if mask == 0 && x.nSplits > 0 {
+				if x.nSplits > 6 {
+					fmt.Fprintf(os.Stderr, "govc: %s: too many split clauses\n", k)
+					engineErr = true
+					break
+				}
+				ncases = 1 << x.nSplits
+			}
+			for _, o := range x.Obls {
+				if r.Only != "" && !strings.Contains(o.Name, r.Only) {
+					continue
+				}
+				if o.Kind == "cover" && mask != 0 {
+					continue
+				}
+				if r.keep(o) {
+					all = append(all, o)
+					rep.Obls++
+				}
 			}
 		}
 		rep.Trivial = x.counters["trivial"]
@@ -166,6 +190,48 @@ func (r *Run) Do(keys []string) int {
 		}
 		sort.Strings(rep.Contracts)
 		reports = append(reports, rep)
+	}
+	if r.Explain {
+		var ex []*Obligation
+		for _, o := range all {
+			cs := conjuncts(o.Goal)
+			if len(cs) <= 1 && o.Goal.Op == "=>" {
+				for _, c := range conjuncts(o.Goal.Args[1]) {
+					cs = append(cs, Implies(o.Goal.Args[0], c))
+				}
+				cs = cs[1:]
+			}
+			if len(cs) <= 1 && o.Goal.Op == "or" {
+				// (or !a (and b1 b2 ..)) -> one goal per b_i
+				var rest []*Term
+				var conj *Term
+				for _, a := range o.Goal.Args {
+					if a.Op == "and" && conj == nil {
+						conj = a
+					} else {
+						rest = append(rest, a)
+					}
+				}
+				if conj != nil {
+					cs = nil
+					for _, c := range conj.Args {
+						cs = append(cs, Or(append(append([]*Term{}, rest...), c)...))
+					}
+				}
+			}
+			if len(cs) <= 1 || o.Kind == "cover" {
+				ex = append(ex, o)
+				continue
+			}
+			for k, c := range cs {
+				o2 := *o
+				o2.Goal = c
+				o2.Name = fmt.Sprintf("%s.c%d", o.Name, k+1)
+				o2.Note = o.Note + fmt.Sprintf(" [conjunct %d]", k+1)
+				ex = append(ex, &o2)
+			}
+		}
+		all = ex
 	}
 	tGen := time.Since(r.T0).Seconds() - r.LoadSecs
 	if r.ListOnly {
